@@ -252,23 +252,28 @@ def run(ctx):
         ctx.broken.append({"kind": "correspondence", "detail": "harness does not build against /repo/pure", "log": err})
         return
     cases = gen_cases(ctx, 10 if ctx.broken else 1)  # enlarged budget once something broke
+    probe_only = None
     if ctx.replay:
         cases = [json.load(open(ctx.replay))["case"]]
-    rc, impl, err = ctx.run_harness(binp, [], cases)
+        if cases[0].startswith("probe "):
+            probe_only, cases = cases[0][len("probe "):], []
+    rc, impl, err = ctx.run_harness(binp, [], cases) if cases else (0, [], "")
     if len(impl) != len(cases):
         ctx.broken.append({"kind": "correspondence", "detail": "harness produced %d lines for %d cases (rc=%s): %s" % (len(impl), len(cases), rc, err[-500:])})
         return
-    if not ctx.replay:
-        # "Empty is the given element" where a copy would lose nil-ness or identity (direct oracle only)
+    if not ctx.replay or probe_only is not None:
+        # "Empty is the given element" where a copy would lose nil-ness or identity; ContraMap over pointer- and
+        # interface-typed arguments (direct oracle only)
         prc, plines, perr = ctx.run_harness(binp, ["probe"], [])
         for l in plines:
-            if not l.strip():
+            if not l.strip() or (probe_only is not None and l.rsplit(" ", 1)[0] != probe_only):
                 continue
             ctx.count("probe " + l.rsplit(" ", 1)[0], True)
             ctx.hist("op", "probe")
             if not l.endswith(" ok"):
-                ctx.violations.append(vlib.Violation("impl", "monoid.From/FromOp: Empty() is not the given element (nil-ness or identity of a slice, map, pointer or interface "
-                                                     "value lost): " + l, case="probe " + l.rsplit(" ", 1)[0], expected="ok", got=l, key={"op": "probe"}))
+                what = ("ContraMap does not give the base instance's result on the projections of pointer- / interface-typed arguments (nil included; the projection is defined on nil): "
+                        if "ContraMap" in l else "monoid.From/FromOp: Empty() is not the given element (nil-ness or identity of a slice, map, pointer or interface value lost): ")
+                ctx.violations.append(vlib.Violation("impl", what + l, case="probe " + l.rsplit(" ", 1)[0], expected="ok", got=l, key={"op": "probe"}))
         if prc != 0 or len(plines) < 5:
             ctx.broken.append({"kind": "correspondence", "detail": "probe run of the pure harness failed: rc=%s %s" % (prc, perr[-300:])})
     model = ctx.oracle("C17", cases)
